@@ -292,6 +292,7 @@ Fill(t) ==
 
 RootSorts == CASE Fam \in {"idx", "chain", "chain1"} -> {"SeqInt"}
                [] Fam \in {"agg"} -> {"SeqInt", "Int"}
+               [] Fam \in {"meth", "md", "md1"} -> {"SeqInt", "SeqJet", "SeqEvt", "SeqTrk", "Int"}
                [] OTHER -> {"SeqInt", "SeqJet", "Int"}
 Roots == {Hole(s, Budget, <<>>, <<>>) : s \in RootSorts}
 
